@@ -41,6 +41,7 @@ type srvReq struct {
 	Closer  int    `json:"closer,omitempty"` // number of junk closer peers stuffed into the request
 	Cluster int    `json:"cluster,omitempty"`
 	Raw     []byte `json:"raw,omitempty"`    // Kind raw: bytes written verbatim
+	Framed  bool   `json:"framed,omitempty"` // Kind raw: ... behind a correct length prefix
 	Mutate  int    `json:"mutate,omitempty"` // msg: 0 none; 1 truncate frame; 2 oversize length prefix; 3 flip a byte
 }
 
@@ -58,6 +59,7 @@ type srvSc struct {
 	BigProv  bool     `json:"big_prov"`    // providers carry ~8 KiB of addresses each (4 MiB budget reachable when NProv is large)
 	Filter   string   `json:"addr_filter"` // "" | nolo
 	Reqs     []srvReq `json:"reqs"`
+	Silent   bool     `json:"silent,omitempty"` // at the end the senders go silent instead of closing their streams
 	tainted  bool     // set while running: a byte-flipped frame of unknown effect was sent; state-dependent provider clauses are off
 }
 
@@ -160,48 +162,62 @@ func frame(b []byte) []byte {
 	return append(hdr[:n:n], b...)
 }
 
-func (sc *srvSc) wire(r srvReq) ([]byte, *pb.Message) {
+// wire returns the bytes sent for r, the message the handler will see (nil when the bytes are not exactly one well-formed
+// frame), and whether the bytes oblige the server to end the stream: a complete frame whose payload is not a DHT message, a
+// length prefix beyond the transport limit or a malformed varint is a request that cannot be answered, so "answers or resets"
+// leaves only the reset. An incomplete frame is not a request yet (the server may keep waiting for the rest).
+func (sc *srvSc) wire(r srvReq) (out []byte, req *pb.Message, mustEnd bool) {
 	if r.Kind == "raw" {
-		return r.Raw, nil
-	}
-	m := sc.build(r)
-	b, err := proto.Marshal(m)
-	if err != nil {
-		panic(err)
-	}
-	out := frame(b)
-	switch r.Mutate {
-	case 1:
-		if len(out) > 2 {
-			return out[:len(out)/2], nil
+		out = r.Raw
+		if r.Framed {
+			out = frame(r.Raw)
 		}
-	case 2:
-		var hdr [binary.MaxVarintLen64]byte
-		n := binary.PutUvarint(hdr[:], uint64(network.MessageSizeMax+1))
-		return append(hdr[:n:n], b...), nil
-	case 3:
-		if len(out) > 3 {
-			out[len(out)/2] ^= 0x5a
-			// The flipped frame may still be one well-formed message (a changed byte inside a key, an address, a peer id): then
-			// that message is what the handler sees, it is judged like any other, and the model learns its effects. Otherwise
-			// (length prefix no longer matches, payload no longer parses) only "answer or reset" is asserted and the stream is
-			// dropped; what the handler made of a shorter prefix of the bytes is not modelled, which taints the provider model.
-			if l, n := binary.Uvarint(out); n > 0 && int(l) == len(out)-n {
-				dec := new(pb.Message)
-				if proto.Unmarshal(out[n:], dec) == nil {
-					return out, dec
-				}
+	} else {
+		m := sc.build(r)
+		b, err := proto.Marshal(m)
+		if err != nil {
+			panic(err)
+		}
+		out = frame(b)
+		switch r.Mutate {
+		case 1:
+			if len(out) > 2 {
+				out = out[:len(out)/2]
 			}
-			sc.tainted = true
-			return out, nil
+		case 2:
+			var hdr [binary.MaxVarintLen64]byte
+			n := binary.PutUvarint(hdr[:], uint64(network.MessageSizeMax+1))
+			out = append(hdr[:n:n], b...)
+		case 3:
+			if len(out) > 3 {
+				out[len(out)/2] ^= 0x5a
+			}
 		}
 	}
-	// what the handler will see is the decoded form
-	dec := new(pb.Message)
-	if proto.Unmarshal(b, dec) != nil {
-		return out, nil
+	l, n := binary.Uvarint(out)
+	switch {
+	case n < 0:
+		return out, nil, true // varint overflow
+	case n == 0:
+		return out, nil, false // length prefix incomplete
+	case l > uint64(network.MessageSizeMax):
+		return out, nil, true
+	case uint64(len(out)-n) < l:
+		return out, nil, false // frame incomplete
 	}
-	return out, dec
+	dec := new(pb.Message)
+	if proto.Unmarshal(out[n:n+int(l)], dec) != nil {
+		return out, nil, true
+	}
+	if len(out)-n > int(l) {
+		// one well-formed message followed by more bytes: what the handler makes of the tail is not modelled
+		sc.tainted = true
+		return out, nil, false
+	}
+	// Exactly one well-formed frame - built that way, or a byte-flipped / random one that still parses (a changed byte inside a
+	// key, an address, a peer id): that message is what the handler sees, it is judged like any other, and the model learns its
+	// effects.
+	return out, dec, false
 }
 
 // readFrames parses zero or more varint-framed messages.
@@ -234,7 +250,7 @@ type srvStream struct {
 
 func runServer(t *testing.T, sc *srvSc) (res verifsim.Result) {
 	pp := ppool()
-	reached, bounds := 0, 0
+	reached, bounds, unanswerable, idleStreams := 0, 0, 0, 0
 	out := verifsim.Bubble(t, func() {
 		self := peer.ID(pp.IDs[sc.Self])
 		h := verifnet.NewHost(self, []ma.Multiaddr{ma.StringCast("/ip4/8.1.1.1/tcp/4001")})
@@ -356,7 +372,7 @@ func runServer(t *testing.T, sc *srvSc) (res verifsim.Result) {
 				st = &srvStream{cli: openStream(sender)}
 				streams[sk] = st
 			}
-			raw, req := sc.wire(r)
+			raw, req, mustEnd := sc.wire(r)
 			beforeKey := string(sc.key(r))
 			if req != nil {
 				beforeKey = string(req.GetKey()) // (a byte-flipped frame that still parses may carry another key)
@@ -395,6 +411,13 @@ func runServer(t *testing.T, sc *srvSc) (res verifsim.Result) {
 			if len(msgs) == 1 {
 				resp = msgs[0]
 			}
+			if mustEnd {
+				unanswerable++
+				if !st.dead {
+					res.Fail("well-formed-or-reset", "C09/response/neither-answered-nor-reset", "%s: %d bytes that cannot be a request (undecodable complete frame, oversize or malformed length prefix) were neither answered nor was the stream ended", step, len(raw))
+					return
+				}
+			}
 			if req == nil && !st.dead {
 				// not a clean frame: the stream is desynchronised from here on; stop using it
 				st.cli.CloseWrite()
@@ -411,6 +434,21 @@ func runServer(t *testing.T, sc *srvSc) (res verifsim.Result) {
 				return
 			}
 		}
+		if sc.Silent {
+			// the peers go silent instead of closing: the node must not keep serving goroutines and streams for them beyond its
+			// idle timeout, whatever the last request on the stream was
+			time.Sleep(dhtStreamIdleTimeout + time.Second)
+			verifsim.Quiesce()
+			for sk, st := range streams {
+				if st.dead {
+					continue
+				}
+				idleStreams++
+				if _, eof, reset := st.cli.Peek(); !eof && !reset {
+					res.Fail("idle-stream-ended", "C09/serve/idle-stream-kept", "stream %d of sender %d: the peer was silent for %v after its last request and the node still holds the stream open", sk[1], sk[0], dhtStreamIdleTimeout+time.Second)
+				}
+			}
+		}
 		for _, st := range streams {
 			st.cli.CloseWrite()
 		}
@@ -422,6 +460,12 @@ func runServer(t *testing.T, sc *srvSc) (res verifsim.Result) {
 		res.Fail("no-panic", "C09/serve/hang-or-panic", "%s %s\n%s", out.Deadlock, out.Panic, out.Stacks)
 	}
 	res.NonTrivial = reached > 0 && bounds > 0
+	if unanswerable > 0 {
+		res.Class("unanswerable-bytes")
+	}
+	if idleStreams > 0 {
+		res.Class("silent-peer-streams")
+	}
 	res.Weight = max(1, len(sc.Reqs))
 	if sc.Client {
 		res.Class("client-mode")
@@ -716,6 +760,7 @@ func genSrvReq(t *rapid.T) srvReq {
 	if rapid.IntRange(0, 9).Draw(t, "raw") == 0 {
 		r.Kind = "raw"
 		r.Raw = rapid.SliceOfN(rapid.Byte(), 0, 40).Draw(t, "rawBytes")
+		r.Framed = rapid.Bool().Draw(t, "framed") // random payload behind a correct length prefix
 		return r
 	}
 	r.Type = rapid.SampledFrom([]int{0, 1, 2, 3, 4, 5, 5, 4, 4, 3, 6, 17, -1}).Draw(t, "type")
@@ -761,8 +806,8 @@ func c09ServerCheck() verifsim.Check[srvSc] {
 		Rule: "rapid: a server-mode (or client-mode) node with drawn state (0-25 routing-table peers, some without / with >8 KiB of peerstore addresses, stored values, 0-3 provider keys with 1-30 providers, " +
 			"occasionally 600 providers x ~8 KiB so that the 4 MiB budget bites) receives 1-6 requests over fake inbound streams from 3 senders x 2 streams: structured messages of every type incl. unknown enums x key " +
 			"lengths {0,1,34,80,81,4096, value key, a table peer, the sender, the node} x records {absent, ok, key mismatch, invalid, empty} x provider records {sender/other/empty id} x addresses {none, ok, undecodable, " +
-			">8 KiB, mixed} x stuffed peer lists x cluster-level extremes, all through marshal->bytes, plus truncated frames, oversize length prefixes, flipped bytes and raw garbage; oracle = validity predicate on the bytes " +
-			"read back, provider/value store effects, and a PING from another peer answered after every request; non-trivial = a request reached a handler and touched a bound",
+			">8 KiB, mixed} x stuffed peer lists x cluster-level extremes, all through marshal->bytes, plus truncated frames, oversize length prefixes, flipped bytes and raw garbage with and without a correct length prefix (bytes that cannot be a request must end the stream); oracle = validity predicate on the bytes " +
+			"read back, provider/value store effects, a PING from another peer answered after every request, and (one scenario in three) streams whose peer goes silent ended after the idle timeout; non-trivial = a request reached a handler and touched a bound",
 		Gen: func(t *rapid.T) srvSc {
 			sc := srvSc{K: rapid.IntRange(1, 8).Draw(t, "k"), Client: rapid.IntRange(0, 7).Draw(t, "client") == 0, Self: rapid.IntRange(0, 5000).Draw(t, "self")}
 			sc.RT = rapid.SliceOfNDistinct(rapid.IntRange(0, 5000), 0, 25, func(i int) int { return i }).Draw(t, "rt")
@@ -782,6 +827,7 @@ func c09ServerCheck() verifsim.Check[srvSc] {
 			}
 			sc.Filter = rapid.SampledFrom([]string{"", "nolo"}).Draw(t, "filter")
 			sc.Reqs = rapid.SliceOfN(rapid.Custom(genSrvReq), 1, 6).Draw(t, "reqs")
+			sc.Silent = rapid.IntRange(0, 2).Draw(t, "silent") == 0
 			return sc
 		},
 		Run: func(t *testing.T, sc srvSc) verifsim.Result { return runServer(t, &sc) },
